@@ -8,7 +8,7 @@ LEVEL = "other"
 EXPLANATION = (
     "Who-may-call and must-pass-through rules over Network/PciSession: the wire (Network::send, PciSession::receive, "
     "Delivery construction) is reachable only through PciSession::send_pci, whose spawn is dominated by the branch on "
-    "which len <= mtu; MAC allocation is read+increment under one lock and feeds register_tap; unicast delivery is one "
+    "which len <= mtu; MAC allocation is read+increment under one lock (or one atomic fetch_add whose previous value is returned) and feeds register_tap; unicast delivery is one "
     "lookup by the destination and one receive outside any loop; every delivery is dominated by the completion of the "
     "latency sleep / throughput sleep on the branches where they are configured. Decides the structural clauses for all "
     "schedules and inputs; does not decide delivery counts or the numeric value of the delays.")
